@@ -11,6 +11,7 @@
   UTF-8, so invalid UTF-8 and the empty string are covered.
 -/
 import SpgProofs.Lemmas.Token
+import SpgProofs.Lemmas.Explode
 namespace Spg.C12
 open Spg Tokens
 
@@ -209,6 +210,26 @@ theorem tokenize_errors_full (chars : List α) (ls : List Nat) (h : chars.length
     split at hs
     · cases hs
     · have := (slicesFull_spec ls.length ls chars ts (Nat.le_refl _) hs).2.2.2; omega
+
+/-! ### From characters to bytes: `strings.Split(pw, "")` on any byte string -/
+
+/-- The characters Tokenize cuts the string into concatenate to the string and are non-empty, for
+every byte string — valid UTF-8 or not, the empty string included. With `tokenize_prefix` this
+makes the tokens consecutive substrings of the password's bytes. (`explode` is the model of
+`strings.Split(s, "")`, compared with Go on random byte strings by the `explode` operations.) -/
+theorem explode_partition (bytes : List Nat) :
+    (explode (bytes.length + 1) bytes).flatten = bytes ∧ ∀ c ∈ explode (bytes.length + 1) bytes, c ≠ [] :=
+  ⟨explode_flatten _ _ (by omega), explode_nonempty _ _⟩
+
+/-- **Prefix law on bytes**: whenever Tokenize succeeds on a byte string, the bytes of the token
+values, concatenated, are a prefix of the password's bytes. -/
+theorem tokenize_prefix_bytes (bytes : List Nat) (ti : List Nat) (ts : List (Token (List Nat)))
+    (h : Tokens.tokenize (explode (bytes.length + 1) bytes) ti = some ts) :
+    ∃ rest, (concat ts).flatten ++ rest = bytes := by
+  obtain ⟨k, _, hk⟩ := tokenize_prefix _ ti ts h
+  refine ⟨((explode (bytes.length + 1) bytes).drop k).flatten, ?_⟩
+  rw [hk, ← List.flatten_append, List.take_append_drop]
+  exact (explode_partition bytes).1
 
 /-! ### Non-vacuity and the repaired defect -/
 
